@@ -229,6 +229,11 @@ func (s *Solver) Check(extra *Term, wantModel bool) (Result, Model) {
 		s.send("(pop 1)\n")
 	}
 	d := time.Since(start)
+	if d > 10*time.Second || res == Unknown {
+		if dir := os.Getenv("GOSYM_SLOWDIR"); dir != "" {
+			s.dumpQuery(dir, extra, d, res)
+		}
+	}
 	if res == Unknown {
 		// fall back to the other solvers on a one-shot script
 		r2, m2 := s.fallback(extra, wantModel)
@@ -527,4 +532,41 @@ func solverBin() string {
 		return "z3-new"
 	}
 	return "z3"
+}
+
+// dumpQuery writes the current query as a standalone script (diagnostics).
+func (s *Solver) dumpQuery(dir string, extra *Term, d time.Duration, res Result) {
+	var sb strings.Builder
+	defined := map[*Term]bool{}
+	var emit func(t *Term)
+	emit = func(t *Term) {
+		if defined[t] || t.op == OpConst || t.op == OpFConst {
+			return
+		}
+		for _, c := range [3]*Term{t.a, t.b, t.c} {
+			if c != nil {
+				emit(c)
+			}
+		}
+		if t.op == OpVar {
+			fmt.Fprintf(&sb, "(declare-const %s %s) ; %s\n", t.ref(), sortString(t.w), t.name)
+		} else {
+			fmt.Fprintf(&sb, "(define-fun %s () %s %s)\n", t.ref(), sortString(t.w), t.body())
+		}
+		defined[t] = true
+	}
+	all := append([]*Term{}, s.asserted...)
+	if extra != nil {
+		all = append(all, extra)
+	}
+	for _, t := range all {
+		emit(t)
+		fmt.Fprintf(&sb, "(assert %s)\n", t.ref())
+	}
+	sb.WriteString("(check-sat)\n")
+	f, err := os.CreateTemp(dir, fmt.Sprintf("slow-%s-%ds-*.smt2", res, int(d.Seconds())))
+	if err == nil {
+		f.WriteString(sb.String())
+		f.Close()
+	}
 }
